@@ -56,7 +56,9 @@ Step ==
         IN
         IF ~pr.ok THEN
            \* the handle is no longer a readable, well-formed value
-           /\ MM(Rpt(e, "Readable", IF e.after.st # "ok" THEN e.after.st ELSE "malformed"))
+           \* (not judged when the operation itself is outside the property's domain)
+           /\ IF Judge(e, doc, doc).lbl \in {"I8Key", "Unspecified"} THEN TRUE
+              ELSE MM(Rpt(e, "Readable", IF e.after.st # "ok" THEN e.after.st ELSE "malformed"))
            /\ live' = FALSE /\ UNCHANGED docs
         ELSE
            LET v == Judge(e, doc, pr.v) IN
